@@ -18,6 +18,9 @@ import (
 type goExecutor struct{}
 
 func (r goExecutor) ExecuteUnsafe(runnable fp.Runnable) {
+	if verifSpawn(runnable.Run) {
+		return
+	}
 	go runnable.Run()
 }
 
